@@ -358,4 +358,39 @@ Proof.
       destruct (cp_e_remove_from_file _ _ _ _ _ H C) as (_ & P). eapply owned_posrel; eauto.
 Qed.
 
+Hypothesis tree_step : TreeStep T tab_el tab_en check_fn LATEST root_attrs.
+
+(* with FilesOwned carried along, the step theorem needs no Unowned exclusion *)
+Theorem inv_step_owned o w r w' :
+  TreeInv w -> FilesInv T w -> FilesOwned w -> RootNamedLast T w o = false -> Known10 w o = false ->
+  run o w = Val (r, w') -> FilesInv T w' /\ FilesOwned w'.
+Proof.
+  intros TI FI O HP HK H. pose proof TI as (C & _). split.
+  - eapply (inv_step T tab_el tab_en check_fn LATEST root_attrs core_step); eauto. apply owned_unowned. exact O.
+  - eapply owned_step; eauto.
+Qed.
+
+Definition step_ok_owned (w : world) (o : op) : bool :=
+  negb (Known T tab_el tab_en check_fn LATEST root_attrs w o) && negb (RootNamedLast T w o) && negb (Known10 w o).
+
+Fixpoint steps_ok_owned (l : list op) (w : world) : bool :=
+  match l with
+  | [] => true
+  | o :: rest => step_ok_owned w o && match run o w with Val (_, w') => steps_ok_owned rest w' | _ => true end
+  end.
+
+Theorem inv_histories_owned l : forall w w', TreeInv w -> FilesInv T w -> FilesOwned w -> steps_ok_owned l w = true ->
+  run_ops T tab_el tab_en check_fn LATEST root_attrs l w = Val w' -> TreeInv w' /\ FilesInv T w' /\ FilesOwned w'.
+Proof.
+  induction l as [|o rest IH]; intros w w' TI FI O Hok H; cbn [run_ops steps_ok_owned] in *.
+  - injection H as <-. auto.
+  - apply Bool.andb_true_iff in Hok as (Hs & Hok). unfold step_ok_owned in Hs.
+    apply Bool.andb_true_iff in Hs as (Hs & H3). apply Bool.andb_true_iff in Hs as (H1 & H2).
+    apply Bool.negb_true_iff in H1, H2, H3.
+    change (Inv.run T tab_el tab_en check_fn LATEST root_attrs o w) with (run o w) in H.
+    destruct (run o w) as [[r w1]| |] eqn:Er; try discriminate.
+    destruct (inv_step_owned o w r w1 TI FI O H2 H3 Er) as (FI1 & O1).
+    apply (IH w1 w'); auto. eapply tree_step; eauto.
+Qed.
+
 End Owned.
